@@ -270,67 +270,77 @@ PROPS["C10"] = dict(
 )
 
 PROPS["C04"] = dict(
-    modules=["Morlock.Props.C10", "Morlock.Props.C03"],
+    modules=["Morlock.Props.C04", "Morlock.Props.C16", "Morlock.Props.C03"],
     streams=["ucidet", "ucirace"],
     timeout=dict(quick=900, thorough=6000),
     level_text="Tie (decides the property): (a) deterministic sessions (go depth N, repeated go, hash on/off, root where a draw can be claimed): exactly one bestmove, equal to the one the "
                "Lean model of iterative deepening predicts, and member of the reference legal moves (0000 only if none); (b) interleaving scripts against the real driver with all "
                "five engine wirings (plain, morlock+hash, turochamp, sargon+book, bernstein+book; noise on): go infinite + stop, movetime, clocks, go during search, old movetime timers, "
                "judged by a trace monitor: every go that ends or is stopped gets exactly one bestmove, legal in the position of THAT go, null only without legal moves. "
-               "Lean: C03.pv (the PV's first move is a legal explored move) and the C10 lemmas; the small-step driver theorems (at_most_one, answered) are in progress.",
+               "Lean (small-step model UciConc of the command loop, forwarders, timers, engine mutex and searches; every schedule, every command list): C04.answered - in every quiescent "
+               "state the latest go that ended by itself (finite / movetime / book hit) or was stopped, and was not superseded, has exactly one bestmove and one commit; "
+               "C16.at_most_one - never more than one bestmove per go; C03.pv - the PV's first move is a legal explored move.",
     level_note="Trusted: Lean kernel; Driver.Uci tied exactly on deterministic scripts; real goroutine scheduling and timers are only exercised through scripted interleavings "
                "(gated evaluator, sleeps) - partial by nature.",
     technique="differential + monitored scripted interleavings of the real UCI driver; Lean search-PV theorem",
     rule="deterministic scripts as in C10 with go; 30 (quick) / 400 (thorough) interleaving scripts over 10 scenario families x 5 engines; non-trivial = distinct script",
-    partial=["liveness under the real Go scheduler/timers is exercised, not proved; small-step model theorems pending"],
+    partial=["the small-step model UciConc is a hand transcription validated by the scripted interleavings, not by a line-by-line differential run; real scheduler/timers are exercised, not enumerated"],
     modelled=UCI_MODELLED,
 )
 
 PROPS["C16"] = dict(
-    modules=["Morlock.Props.C10"],
+    modules=["Morlock.Props.C16", "Morlock.Props.C04"],
     streams=["ucirace"],
     timeout=dict(quick=900, thorough=6000),
     level_text="Tie (decides the property): interleaving scripts against the real driver, each in a child process so that a crash in any goroutine is observed: a search parked inside a "
                "gated evaluator while position/go/ucinewgame/quit/EOF/isready/unknown/malformed lines arrive, released at a chosen point; slow evaluators; movetime timers left over "
                "from earlier searches. The trace monitor demands: no crash, no hang, every isready answered, no bestmove in windows where no search may report, every bestmove legal "
                "in the position of the go it answers (a stale answer of a superseded search is illegal there by construction: side to move differs), clean shutdown on quit and EOF. "
-               "Lean: text-handling lemmas only so far; the small-step model with no_stale / no_send_after_close for all schedules is in progress.",
+               "Lean (small-step model UciConc; every schedule and command list): no_stale_partial - a search can only commit (win the compare-and-swap that entitles it to print) while it is "
+               "the most recent go; active_zero_or_latest; at_most_one; no_send_after_close (the model's image of 'no crash'); closed_after_forwarders; readyok / readyok_between - every "
+               "isready is answered before the next command is consumed; clean_shutdown and quit_is_final; decided witnesses that the pre-repair designs (boolean active, close without "
+               "waiting) violate them. Boundary proved by witness: between a forwarder's commit and its send the loop may already have consumed the next go "
+               "(stale_send_possible, stale_window_possible) - from outside indistinguishable from a bestmove sent just before that go arrived, so 'stale' is read at the commit point.",
     level_note="Trusted: the Go runtime; scripted interleavings cover chosen schedules only; data races are checked by the race detector in the thorough tier. Partial by nature.",
     technique="fault/interleaving enumeration through a gated evaluator + trace monitor; race detector",
     rule="10 scenario families (supersede, infinite+stop, isready during search, shutdown during search, stale movetime timer, time limits, malformed lines, go during search, abandon search, bundled engines) x random parameters; non-trivial = distinct script",
-    partial=["all-schedules theorems pending; real scheduler not enumerated"],
+    partial=["no_stale holds at the commit point, not at the send (inherent: forwarders send on their own; two decided schedules show it); UciConc is a hand transcription validated by the scripted interleavings; real scheduler not enumerated"],
     modelled=UCI_MODELLED,
 )
 
 PROPS["C15"] = dict(
-    modules=["Morlock.Props.C15Limits", "Morlock.Props.C03"],
+    modules=["Morlock.Props.C15", "Morlock.Props.C15Limits", "Morlock.Props.C03"],
     streams=["c15"],
     level_text="Lean theorem: for every clock 0 <= remaining < 2^62 ns and every moves-to-go < 2^31, TimeControl.Limits gives 0 <= soft <= hard <= remaining (int64 wrap-around and "
                "truncating division explicit). C03.search_exact gives what each iteration returns. Tie: (a) Limits on a dense grid + random 62-bit values, impl vs model exact; "
                "(b) Engine.Analyze with depth limits on generated positions: every PV seen is compared with a direct fixed-depth AlphaBeta.Search at that depth (score and PV), depths "
                "strictly increasing, the last depth equals the model's prediction (limit, or first depth with a forced mate within the depth), Halt afterwards returns that last "
                "iteration, the engine's own game untouched; (c) a halt requested while depth 1 is still running (search parked inside a gated evaluator) returns only after depth 1 and "
-               "returns a completed iteration at least as deep as any reported before. The small-step model of handle.process/Halt with all-schedule theorems is in progress.",
+               "returns a completed iteration at least as deep as any reported before. Lean small-step model IterConc (searcher, watcher, any number of Halt callers incl. the hard timer, consumer; "
+               "every schedule): reports_in_order (the PVs sent are search 1, 2, ... in order), stops_at_limit, halt_after_depth1, halt_monotone, cancelled_only_after_quit, limits_ordered.",
     level_note="Trusted: Lean kernel; Model.TimeCtl tied exactly; real timers/goroutine scheduling exercised through the gate only (partial by nature).",
     technique="Lean 4 proof of the time-limit arithmetic + differential iterative deepening vs fixed-depth searches + gated halts",
     rule="limits: 16x11x2x2 grid + 2000 random (w,b,moves); iter: 40 lines x depth limit 1-5; iterhalt: 20 positions x gate 1-40; non-trivial = distinct parameters / script",
-    partial=["reports_in_order / halt_monotone for all schedules: small-step model proof in progress; until then exploration through scripted halts"],
+    partial=["IterConc is a hand transcription validated by the gated-halt scenarios and the iter stream, not line by line; real timers exercised through the gate only"],
     modelled=["search/searchctl/timectrl.go: TimeControl.Limits -> Model.TimeCtl; iterative.go process loop (sequential reading) -> Driver.Misc.iterOp over Model.Search"],
 )
 
 PROPS["C17"] = dict(
-    modules=["Morlock.Props.C11", "Morlock.Props.C13Window"],
+    modules=["Morlock.Props.C17", "Morlock.Props.C11"],
     streams=["c17"],
     extra_race=True,
     level_text="Tie: (a) sequential Read/Write/Used sequences on tables of 1-2048 entries with colliding hashes, the min-depth filter and uint16 wrap-around of the replacement value, "
                "impl vs the Lean table model exact (the same model whose soundness under search is proved in C11); (b) concurrent stress: writers store self-describing tuples "
                "(every field a function of one integer that the score names) while readers check that each lookup returns exactly one tuple that one store for that same hash made; "
                "at quiescence Used()*entries equals the number of occupied slots and no slot holds an entry of smaller replacement value than a store that reported success; "
-               "(c) the same stress under the Go race detector. The small-step model with no_mixture / replace_le / used_exact for all schedules is in progress.",
+               "a rendezvous phase makes stores overlap tightly (one high-value store vs low ones on a fresh slot; every writer occupying its own fresh slot at the same moment). "
+               "Lean small-step model TTConc (load / compare / CAS / atomic add as separate steps, any number of threads and slots, every schedule): no_mixture (a successful lookup returns "
+               "exactly the node one Write call for that hash published), replace_le and slot_val_mono, used_exact(_quiescent), used_range, and seq_refines: non-overlapping calls behave "
+               "exactly like the sequential Model.TT that the streams tie to the code; decided witness that the pre-repair plain increment loses updates.",
     level_note="Trusted: the Go memory model is only observed through the race detector on the runs made (partial by nature); Model.TT tied exactly on sequential histories.",
     technique="differential sequential table ops + concurrent stress with self-describing payloads + race detector; Lean table model",
     rule="300 sequential scripts (10-50 ops, 2-13 hashes, 5 sizes); 6 stress runs (2-6 writers, 1-4 readers, 2-200 hashes, 30000 stores each) + race-detector run; non-trivial = distinct script",
-    partial=["all-schedules theorems pending; 'no data race' is established by the race detector on the runs made only"],
+    partial=["'no data race' in the sense of the Go memory model is outside any model: race detector on the runs made (thorough tier)"],
     modelled=["search/transposition.go: NewTranspositionTable, Read, Write, val, Used, WriteLimited -> Model.TT"],
 )
 
